@@ -102,6 +102,10 @@ def traj2(case, rng):
         for _ in range(4):
             i, j = rng.randrange(n), rng.randrange(n)
             x[0, i], y[0, i] = x[0, j], y[0, j]
+        # ... and an outermost sample (unbounded / edge cell) acquired two or three times
+        far = int(torch.argmax(x[0] ** 2 + y[0] ** 2))
+        for i in rng.sample([i for i in range(n) if i != far], rng.choice([1, 2])):
+            x[0, i], y[0, i] = x[0, far], y[0, far]
     return x, y
 
 
@@ -174,6 +178,18 @@ def run_d2(case, drv) -> Outcome:
             ws = wf[inv == u]
             if cnt[u] > 1 and float((ws - ws[0]).abs().max()) > 1e-5 * float(ws[0]):
                 viol = viol or v('duplicates', 'coincident samples do not share their cell equally')
+        # a cell is *split* among its coincident samples: together they weigh what the single sample weighs in the trajectory
+        # without repetitions (also for edge cells, whose weight is a replacement value)
+        if len(uniq) < pts.shape[0] and len(uniq) >= 4 and viol is None:
+            ux, uy = uniq[:, 0].reshape(1, 1, 1, -1), uniq[:, 1].reshape(1, 1, 1, -1)
+            st_u, wu = call(lambda: dcf_of(kz, uy, ux))
+            if st_u == 'ok':
+                wu = wu.flatten()
+                sums = torch.zeros(len(uniq), dtype=wf.dtype).index_add_(0, inv, wf)
+                if not torch.allclose(sums, wu.to(sums.dtype), rtol=2e-3, atol=1e-6):
+                    bad = int(torch.argmax((sums - wu).abs()))
+                    viol = viol or v('duplicates-split', f'the {int(cnt[bad])} samples at {uniq[bad].tolist()} weigh {float(sums[bad]):.5g} together, the single sample '
+                                                         f'weighs {float(wu[bad]):.5g} in the trajectory without repetitions')
         # interior cells (bounded, away from the edge) = cell volume: translation and rotation invariant
         interior = interior_mask(x, y, wf)
         if bool(interior.any()):
